@@ -4,5 +4,5 @@ From Coq Require Import ZArith NArith List String.
 From RC Require Import lib.PyStr model.ReqFileC16.
 Extraction Language OCaml.
 Extraction "../build/ocaml/C16/model.ml" N.succ Z.succ Pos.succ Nat.add
-  req_iter iter_lines iter_lines_ng iter_file parse_index_urls cli_parse cli_front cli_front_with cli_front_full bazel_front shlex_split drop_comment
+  req_iter iter_lines iter_lines_ng iter_file parse_index_urls cli_parse cli_front cli_front_with cli_front_full combine_res read_files cli_front_files bazel_front_files bazel_front shlex_split drop_comment
   dirname path_join render reqs_of opts_of depth conventional pip_strict req_meaning sanitize norm_index_url parse_requirements_texts.
